@@ -41,6 +41,10 @@ type Item struct {
 	Pay  string    `json:"pay,omitempty"`
 	Exec []Outcome `json:"exec,omitempty"` // per attempt; the last entry repeats
 	Fb   *Outcome  `json:"fb,omitempty"`   // fallback outcome when invoked (node must have a fallback)
+	// DupOf: this item is the very same value as item DupOf-1 of the visit (an
+	// equal scalar at a second position): still an item of its own. Sequential
+	// batches with one attempt per item only (calls are attributed by order).
+	DupOf int `json:"dup_of,omitempty"`
 }
 
 // Visit scripts one visit of a node.
